@@ -200,6 +200,7 @@ def package(text, pack, tmpdir):
         ends = pack.get("end", [])
         if i < len(ends) and ends[i] and not last:
             body += nl + ("End", "End", "  End", "End   # end of this file", "End#x", "End\t#  Decay q")[(len(piece) + i) % 6]
+            body += ("", "", nl + "# trailer after End", nl + nl + "   " + nl + "#", nl + "# a" + nl + "# b")[(len(piece) + 2 * i) % 5]
         nls = pack.get("newline", [])
         if (nls[i] if i < len(nls) else True) and (not last or pack.get("last_newline", True)):
             body += nl
